@@ -10,6 +10,8 @@ from __future__ import annotations
 
 import ast
 import hashlib
+import keyword
+import re
 import json
 import os
 
@@ -88,3 +90,45 @@ def _root(f):
     while f.parent is not None:
         f = f.parent
     return f
+
+
+# ------------------------------------------------------------------ local-rename tolerance for construct keys
+_IDENT = re.compile(r"(?<![\w.'\"])([A-Za-z_]\w*)(?!\s*\()")
+_KEEP = set(keyword.kwlist) | {'self', 'cls', 'len', 'True', 'False', 'None', 'bitstring', 'options'}
+
+
+def shape(txt, keep=()):
+    """The construct with every bare identifier that is not a keyword, an ALL-CAPS constant or a known global replaced
+    by '?' - what stays the same when a local variable is renamed."""
+    def rep(mo):
+        w = mo.group(1)
+        return w if (w in _KEEP or w in keep or (w.isupper() and len(w) > 1)) else '?'
+    return _IDENT.sub(rep, txt)
+
+
+def match(table, fk, txt, keep=(), src=None):
+    """Key of ``table`` justifying construct ``txt`` of function ``fk``: the exact key, or - when a local was renamed -
+    the only entry of that function with the same shape.  Only ever used to keep a justification attached."""
+    if (fk, txt) in table:
+        return (fk, txt)
+    tail = ''
+    body = txt
+    if '@' in txt and ':' in txt.rsplit('@', 1)[-1]:
+        body, tail = txt.rsplit('@', 1)
+        tail = '@' + tail
+    sh = shape(body, keep)
+    cands = []
+    for k in table:
+        if k[0] != fk:
+            continue
+        kb, kt = k[1], ''
+        if '@' in k[1] and ':' in k[1].rsplit('@', 1)[-1]:
+            kb, kt = k[1].rsplit('@', 1)
+            kt = '@' + kt
+        # only an ORPHANED entry can be taken over: one whose own construct no longer occurs in the function (it was renamed);
+        # an entry that still matches its own construct must not also justify a different one of the same shape
+        if src is not None and re.search(r'(?<![\w.])' + re.escape(kb) + r'(?!\w)', src):
+            continue
+        if kt == tail and shape(kb, keep) == sh:
+            cands.append(k)
+    return cands[0] if len(cands) == 1 else None
